@@ -84,6 +84,11 @@ def apply_to_shape(ctx, cls, d, landmarks, nested):
     ctx.check_true('transform-unchanged', t.__dict__ == tdict)
     ctx.check_eq('bare-array-agrees', t.apply(s.points), r.points)
     ctx.check_true('points-not-shared', not np.shares_memory(r.points, s.points))
+    # 'a new object ... the input is not modified': nothing mutable (texture,
+    # landmark groups, connectivity, colours ...) may be reachable from both,
+    # or the next in-place edit of the result edits the input
+    shared = shared_storage(r, s)
+    ctx.check_true('result-shares-no-mutable-storage-with-input', not shared, 'shared: %s' % (shared[:3],))
     # batching does not change anything either
     r2 = t.apply(s, batch_size=2)
     compare_states(ctx, 'result-batched', state_of(r2), transform_state(before, F))
